@@ -2,7 +2,9 @@
 //!
 //! Ops (see `lean/BarterModel/Driver/C08.lean`):
 //!   `init <direct|async> <latency_ms> <fee> <n> <bal>*n <k> <base:quote>*k`
-//!   `open <t> <instr> <B|S> <M|L> <price> <qty> <strategy> <cid>`
+//!   `open <t> <instr> <B|S> <M|L> <price> <qty> <strategy> <cid> [<ioc|fok|day|gtc|gtcp>]`
+//!        (time in force; default ioc for market, gtc for limit; when given, the response's
+//!        time in force is printed as `echo_tif`)
 //!   `snap <t>` `balances <t>` `orders <t>` `trades <t> <since>` `cancel <t>`
 //! `direct`: `MockExchange::open_order` / `account_snapshot` called on the struct.
 //! `async` : requests go through `MockExecution` (oneshot responses) to a spawned
@@ -137,6 +139,8 @@ fn parse_init(op: &[String]) -> Setup {
 }
 
 struct OpenArgs {
+    /// the op spelled the time in force out
+    tif_given: bool,
     instrument: InstrumentNameExchange,
     strategy: StrategyId,
     cid: ClientOrderId,
@@ -144,7 +148,7 @@ struct OpenArgs {
 }
 
 fn parse_open(op: &[String]) -> OpenArgs {
-    assert_eq!(op.len(), 9, "open arity");
+    assert!(op.len() == 9 || op.len() == 10, "open arity");
     let side = match op[3].as_str() {
         "B" => Side::Buy,
         "S" => Side::Sell,
@@ -157,6 +161,7 @@ fn parse_open(op: &[String]) -> OpenArgs {
     };
     let _t: i64 = op[1].parse().unwrap();
     OpenArgs {
+        tif_given: op.len() == 10,
         instrument: instr_name(op[2].parse().unwrap()),
         strategy: StrategyId::new(format!("s{}", op[7].parse::<usize>().unwrap())),
         cid: ClientOrderId::new(format!("c{}", op[8].parse::<usize>().unwrap())),
@@ -165,9 +170,13 @@ fn parse_open(op: &[String]) -> OpenArgs {
             price: parse_dec(&op[5]),
             quantity: parse_dec(&op[6]),
             kind,
-            time_in_force: match kind {
-                OrderKind::Market => TimeInForce::ImmediateOrCancel,
-                OrderKind::Limit => TimeInForce::GoodUntilCancelled { post_only: false },
+            time_in_force: match (op.get(9).map(|s| s.as_str()), kind) {
+                (None, OrderKind::Market) | (Some("ioc"), _) => TimeInForce::ImmediateOrCancel,
+                (None, OrderKind::Limit) | (Some("gtc"), _) => TimeInForce::GoodUntilCancelled { post_only: false },
+                (Some("gtcp"), _) => TimeInForce::GoodUntilCancelled { post_only: true },
+                (Some("fok"), _) => TimeInForce::FillOrKill,
+                (Some("day"), _) => TimeInForce::GoodUntilEndOfDay,
+                (Some(o), _) => panic!("bad time in force {o}"),
             },
         },
     }
@@ -266,7 +275,30 @@ fn notif_lines(events: &[UnindexedAccountEvent], lines: &mut Vec<String>) {
 }
 
 /// `resp …`, `echo …`, then `open`/`resp_time` or `err …`
+fn tif_s(t: TimeInForce) -> &'static str {
+    match t {
+        TimeInForce::ImmediateOrCancel => "ioc",
+        TimeInForce::FillOrKill => "fok",
+        TimeInForce::GoodUntilEndOfDay => "day",
+        TimeInForce::GoodUntilCancelled { post_only: false } => "gtc",
+        TimeInForce::GoodUntilCancelled { post_only: true } => "gtcp",
+    }
+}
+
 fn response_lines(
+    r: &Order<ExchangeId, InstrumentNameExchange, Result<Open, UnindexedOrderError>>,
+    tif_given: bool,
+    lines: &mut Vec<String>,
+) {
+    let start = lines.len();
+    response_lines_(r, lines);
+    if tif_given {
+        // directly after the `echo` line
+        lines.insert(start + 2, format!("echo_tif {}", tif_s(r.time_in_force)));
+    }
+}
+
+fn response_lines_(
     r: &Order<ExchangeId, InstrumentNameExchange, Result<Open, UnindexedOrderError>>,
     lines: &mut Vec<String>,
 ) {
@@ -328,6 +360,7 @@ fn run_direct(setup: Setup, ops: &[Vec<String>], lines: &mut Vec<String>) {
         match op[0].as_str() {
             "open" => {
                 let a = parse_open(op);
+                let tif_given = a.tif_given;
                 let request = OrderRequestOpen {
                     key: OrderKey {
                         exchange: EXCHANGE,
@@ -338,7 +371,7 @@ fn run_direct(setup: Setup, ops: &[Vec<String>], lines: &mut Vec<String>) {
                     state: a.state,
                 };
                 let (response, notifications) = exchange.open_order(request);
-                response_lines(&response, lines);
+                response_lines(&response, tif_given, lines);
                 let events: Vec<UnindexedAccountEvent> = match notifications {
                     Some(n) => vec![
                         UnindexedAccountEvent { exchange: EXCHANGE, kind: n.balance.into() },
@@ -404,7 +437,7 @@ fn run_async(setup: Setup, ops: &[Vec<String>], lines: &mut Vec<String>) {
                         state: a.state,
                     };
                     let response = client.open_order(request).await;
-                    response_lines(&response, lines);
+                    response_lines(&response, a.tif_given, lines);
                 }
                 "snap" => {
                     assert_eq!(op.len(), 2);
@@ -685,6 +718,133 @@ fn gen_case(rng: &mut Rng, out: &mut Out, big: bool, mag: Mag) {
     }
 }
 
+
+// ------------------------------------------------------------------- input-domain family (`d` cases)
+
+/// INPUT-DOMAIN family (own PRNG stream; the random cases above stay exactly as they are). It aims at
+/// the classes the random generator reaches never or hardly ever:
+/// * orders placed EXACTLY at the funds boundary: the generator keeps the ledger (the accept rule of the
+///   property, in `Decimal`) and asks for the largest affordable quantity `free / (price * (1 + fee))`,
+///   that quantity plus one unit in the last place (1e-8 .. 1) and minus one unit, on both sides, with
+///   fees whose `1 + fee` has a terminating reciprocal (so the boundary is an exact decimal);
+/// * every time in force (ioc / fok / day / gtc / gtc post-only) on market AND limit orders;
+/// * client order ids and strategies from a set of two or three (the same cid on several orders, also
+///   on different instruments and for different strategies);
+/// * request times at realistic epoch offsets (1.7e12 ms) and before the epoch (negative), latencies
+///   of seconds and minutes, `trades since` exactly at / one ms around the exchange time of a fill;
+/// * larger accounts (up to 8 assets, 6 instruments sharing them).
+fn gen_dom_case(rng: &mut Rng, out: &mut Out, big: bool) {
+    let is_async = rng.chance(70);
+    let latency = *rng.pick(&[0i64, 1, 3, 100, 1000, 60_001]);
+    // 1 + fee in {1, 1.25, 2, 0.5, 1.6, 1.001 (no boundary: reciprocal does not terminate), 0, -1}
+    let fee_s = *rng.pick(&["0", "0.25", "0.25", "1", "-0.5", "0.6", "0.6", "0.001", "-1", "-2"]);
+    let fee = parse_dec(fee_s);
+    let wide = rng.chance(30);
+    let n_assets = rng.range(2, if wide { 8 } else { 4 }) as usize;
+    let mut free: Vec<Decimal> = (0..n_assets)
+        .map(|_| match rng.below(6) {
+            0 => Decimal::ZERO,
+            1 => Decimal::new(rng.range(1, 500), 0),
+            2 => Decimal::new(rng.range(1, 99_999), 2),
+            3 => Decimal::new(rng.range(1, 9_999_999), 8),
+            4 => Decimal::new(*rng.pick(&[1i64, 10, 1_000_000, 1_000_000_000_000]), 0),
+            _ => Decimal::new(rng.range(1, 100_000), 3),
+        })
+        .collect();
+    let k = rng.range(1, if n_assets > 4 { 6 } else { 3 }) as usize;
+    let instruments: Vec<(usize, usize)> = (0..k)
+        .map(|_| (rng.below(n_assets as u64) as usize, rng.below(n_assets as u64) as usize))
+        .collect();
+    out.line(format!(
+        "init {} {latency} {fee_s} {n_assets} {} {k}{}",
+        if is_async { "async" } else { "direct" },
+        free.iter().map(|b| b.normalize().to_string()).collect::<Vec<_>>().join(" "),
+        instruments.iter().map(|(b, q)| format!(" {b}:{q}")).collect::<String>()
+    ));
+    let base_t = *rng.pick(&[0i64, 0, 1_700_000_000_000, -5_000, 86_399_990]);
+    let mut t = base_t;
+    let mut fills: Vec<i64> = vec![]; // exchange times of the fills so far
+    let one_plus_fee = Decimal::ONE + fee;
+    let len = rng.range(1, if big { 40 } else { 20 });
+    for _ in 0..len {
+        t += *rng.pick(&[0i64, 0, 1, 1, 2, 50, -1, 1000]);
+        let r = rng.below(100);
+        if is_async && r >= 72 {
+            match r {
+                72..=87 => {
+                    // around a fill's exchange time: exactly at it, one before, one after; or before / after all
+                    let since = match (fills.is_empty(), rng.below(5)) {
+                        (true, _) | (_, 0) => t + latency / 2 + rng.range(-2, 2),
+                        (_, 1) => -1_000_000_000_000,
+                        _ => *rng.pick(&fills) + rng.range(-1, 1),
+                    };
+                    out.line(format!("trades {t} {since}"));
+                }
+                88..=91 => out.line(format!("snap {t}")),
+                92..=95 => out.line(format!("balances {t}")),
+                96..=97 => out.line(format!("orders {t}")),
+                _ => out.line(format!("cancel {t}")),
+            }
+            continue;
+        }
+        if !is_async && r >= 85 {
+            out.line(format!("snap {t}"));
+            continue;
+        }
+        let i = if rng.chance(4) { k + rng.below(2) as usize } else { rng.below(k as u64) as usize };
+        let buy = rng.chance(50);
+        let market = !rng.chance(8);
+        let tif = *rng.pick(&["ioc", "fok", "day", "gtc", "gtcp"]);
+        let strategy = rng.below(2);
+        let cid = rng.below(3);
+        let price = parse_dec(*rng.pick(&["1", "2", "4", "5", "8", "10", "100", "0.5", "0.25", "0.00000001", "1000000"]));
+        // the asset the order spends and what one unit of quantity costs
+        let (spent, unit_cost) = if i < k {
+            let (b, q) = instruments[i];
+            if buy { (Some(q), price * one_plus_fee) } else { (Some(b), one_plus_fee) }
+        } else {
+            (None, Decimal::ONE)
+        };
+        let ulp = Decimal::new(1, *rng.pick(&[8u32, 8, 6, 3, 0]));
+        // largest affordable quantity, if it is an exact decimal of moderate length
+        let qmax = spent.and_then(|a| {
+            if unit_cost <= Decimal::ZERO || free[a] < Decimal::ZERO {
+                return None;
+            }
+            let q = free[a].checked_div(unit_cost)?.normalize();
+            // short enough that every product of the order stays exact in rust_decimal (the quotient of a
+            // non-terminating reciprocal, e.g. fee 0.001, is 28 digits long and is dropped here)
+            (q.scale() <= 10 && q.mantissa().abs() < 100_000_000_000_000 && q.checked_mul(unit_cost)? == free[a])
+                .then_some(q)
+        });
+        let qty = match (qmax, rng.below(10)) {
+            (Some(q), 0..=2) => q,
+            (Some(q), 3..=4) => q + ulp,
+            (Some(q), 5) if q >= ulp => q - ulp,
+            // a sell quantity written negative (the code takes the magnitude)
+            (Some(q), 6) => -q,
+            (Some(q), 7) if !q.is_zero() => (q / Decimal::TWO).normalize(),
+            _ => Decimal::new(*rng.pick(&[0i64, 1, 2, 5, 25]), *rng.pick(&[0u32, 1, 3])),
+        };
+        let qty = if qty.scale() > 10 || qty.mantissa().abs() >= 100_000_000_000_000 { Decimal::ONE } else { qty };
+        out.line(format!(
+            "open {t} {i} {} {} {} {} {strategy} {cid} {tif}",
+            if buy { "B" } else { "S" },
+            if market { "M" } else { "L" },
+            price.normalize(),
+            qty.normalize()
+        ));
+        // keep the ledger: the accept rule of the property
+        if let (true, Some(a)) = (market, spent) {
+            let rest = free[a] - qty.abs() * unit_cost;
+            if rest >= Decimal::ZERO {
+                free[a] = rest;
+                fills.push(if is_async { t + latency / 2 } else { 0 });
+            }
+        }
+    }
+}
+
 // In malformed (direct) cases every market order on a known instrument is treated as possibly
 // panicking, so it ends the case: conservative and independent of the balances.
 fn op_may_panic(op: &str, w: &World) -> bool {
@@ -750,6 +910,14 @@ fn generate(seed: u64, n_cases: usize, tier: &str) {
             _ => Mag::Normal,
         };
         gen_case(&mut r, &mut out, big, mag);
+    }
+    // input-domain family: a quarter as many cases again, from its own PRNG stream
+    let mut drng = Rng::new(seed ^ 0x0D08_D0A1_5EED);
+    for _ in 0..n_cases.div_ceil(4) {
+        id += 1;
+        out.case(format!("d{id}"));
+        let mut r = drng.fork();
+        gen_dom_case(&mut r, &mut out, big);
     }
     out.flush();
 }
